@@ -1,5 +1,5 @@
 """one simulation run in a fresh process; prints a JSON line with the SHA-256 of everything observable.
-usage: determinism_worker.py <case index> <runner seed> <mode>     mode: plain | perturbed | twice"""
+usage: determinism_worker.py <case index> <runner seed> <mode>     mode: plain | perturbed | twice | after_other"""
 import copy
 import hashlib
 import json
@@ -52,6 +52,23 @@ def config(ci):
     cfg["FPS"] = {"class": "FundamentalPriceShock", "target": "SpotA-1", "triggerTime": rng.randint(0, 10), "priceChangeRate": -0.1, "shockTimeLength": 2}
     cfg["OMS"] = {"class": "OrderMistakeShock", "target": "SpotB", "triggerTime": rng.randint(0, 10), "priceChangeRate": -0.05, "orderVolume": 20, "orderTimeLength": 5}
     cfg["THR"] = {"class": "TradingHaltRule", "targetMarkets": ["SpotB"], "triggerChangeRate": 0.03, "haltingTimeLength": 3}
+    if ci % 2 == 1:
+        del cfg["simulation"]["fundamentalCorrelations"]          # every other configuration has uncorrelated fundamentals
+    return cfg
+
+
+def other_config(ci):
+    """a DIFFERENT configuration over the same market names, run first in the mode `after_other`: other volatilities, other drift,
+    other correlations (none where the case has one and vice versa), other tick sizes, fewer agents"""
+    cfg = config(ci + 57)
+    cfg["SpotA"].update(fundamentalVolatility=0.02, fundamentalDrift=-0.0002)
+    cfg["SpotB"].update(fundamentalVolatility=0.01)
+    if ci % 2 == 1:
+        cfg["simulation"]["fundamentalCorrelations"] = {"pairwise": [["SpotA-0", "SpotB", 0.6], ["SpotA-1", "SpotB", -0.5]]}
+    else:
+        cfg["simulation"].pop("fundamentalCorrelations", None)
+    for ses in cfg["simulation"]["sessions"]:
+        ses["iterationSteps"] = min(ses["iterationSteps"], 12)
     return cfg
 
 
@@ -99,6 +116,9 @@ def main():
     cfg = config(ci)
     if mode == "twice":
         one_run(cfg, seed + 1, 0)
+        d, ok, counts = one_run(cfg, seed, 0)
+    elif mode == "after_other":
+        one_run(other_config(ci), seed + 5, 0)
         d, ok, counts = one_run(cfg, seed, 0)
     elif mode == "perturbed":
         d, ok, counts = one_run(cfg, seed, 3 + ci)
